@@ -231,6 +231,16 @@ theorem resolveF_refines (v : FVariant) (b : BasisSpec) (fs : List FGate) :
     eraseE (resolveF tables labels v b fs) = resolve tables v.keepMarkers (normBasis v.exactStr b) (erase fs) :=
   resolveF_erase tables labels v b fs
 
+/-- a user's gate (no rule) is handed through as the same object when it is named in the list form of the basis, and
+refused otherwise — with `fixes/C03-3` also when its name is a substring of the basis string -/
+example :
+    resolveF tables labels {} (.list [.CNOT, .RX, .RY, .other "MYG"]) [⟨⟨.other "MYG", [0], [], {}⟩, .user 1, none, some 0⟩]
+      = .ok [⟨⟨.other "MYG", [0], [], {}⟩, .user 1, none, some 0⟩] ∧
+    resolveF tables labels {} (.str .CNOT) [⟨⟨.other "NOT", [0], [], {}⟩, .none, none, some 0⟩] = .error .cannotResolve ∧
+    resolveF tables labels ⟨true, true, false⟩ (.str .CNOT) [⟨⟨.other "NOT", [0], [], {}⟩, .none, none, some 0⟩]
+      = .ok [⟨⟨.other "NOT", [0], [], {}⟩, .none, none, some 0⟩] := by
+  decide
+
 /-- **The classical condition is kept** (`fixes/C03-2`): for every assignment `σ` of the classical bits, the
 gates of the resolved circuit that are executed are exactly the resolution of the gates of the input that
 are executed. -/
